@@ -60,6 +60,52 @@ func init() {
 		}
 		return L(U64s(bmtree.AllPaths(T, 0, 1<<63)), U64s(ws))
 	}
+	// history ops: IndexToPath must be a function of its arguments whatever was called (or scribbled) before
+	Exec["bmtree.AllPaths/scribble"] = func(a []V) string {
+		hs, h, junk := a[0].I32(), a[1].I32(), a[2].U64()
+		ps := bmtree.AllPaths(c05Full(hs), 0, 1<<63)
+		listing := U64s(ps)
+		for i := range ps { // the caller owns the slice it was handed: overwrite it in place
+			ps[i] = junk + uint64(i)
+		}
+		T := c05Full(h)
+		ws := make([]uint64, 0, int(T))
+		for i := int32(0); i < T; i++ {
+			ws = append(ws, bmtree.IndexToPath(h, i))
+		}
+		return L(listing, U64s(ws))
+	}
+	Exec["bmtree.IndexToPath/session"] = func(a []V) string {
+		h := a[0].I32()
+		ws := make([]uint64, 0, len(a[1].L))
+		for _, i := range a[1].L {
+			ws = append(ws, bmtree.IndexToPath(h, i.I32()))
+		}
+		return U64s(ws)
+	}
+	Exec["bmtree.PathToIndex/then-IndexToPath"] = func(a []V) string {
+		T := a[0].I32()
+		h := c03Height(T)
+		N := int64(1)<<uint(h+1) - 1
+		or0 := func(i int64) string {
+			if i < 0 || i >= N {
+				return U(0)
+			}
+			return U(bmtree.IndexToPath(h, int32(i)))
+		}
+		out := make([]string, 0, len(a[1].L))
+		for _, q := range a[1].L {
+			w := c10Word(h, q)
+			pos, has := bmtree.PathToIndexLoose(T, w)
+			pos2 := int32(-1)
+			if has == 1 {
+				pos2 = bmtree.PathToIndex(T, w)
+			}
+			p := int64(pos)
+			out = append(out, L(I32(pos), I32(has), I32(pos2), or0(p-1), or0(p), or0(p+1)))
+		}
+		return L(out...)
+	}
 	Exec["bmtree.Height/full"] = func(a []V) string { return I32(bmtree.Height(c05Full(a[0].I32()))) }
 	Register("C05", genC05)
 }
@@ -316,6 +362,8 @@ func genC05(g *Gen) {
 	}
 	g.Exhaust = append(g.Exhaust, "Height(2^(h+1)-1) for every h in 0..30")
 
+	genC05History(g)
+
 	hmax := g.N(10, 13)
 	for h := 0; h <= hmax; h++ {
 		g.Stat("allpaths-full")
@@ -445,4 +493,131 @@ func genC05(g *Gen) {
 		emit(int(b[0]), b[1], "sweep-failure")
 	}
 	g.Exhaust = append(g.Exhaust, fmt.Sprintf("Go-side sweep (well-formed word and PathToIndex(IndexToPath(h,i)) == i) of every index of heights %d..%d: %d pairs, %d failures (failures are emitted as cases)", lo, hi, total, len(bad)))
+}
+
+// genC05History: cases whose point is the HISTORY, not the input (hidden caches, memoised or shared
+// tables, warm-ups from other functions).  Generated first so that everything after them also runs on
+// whatever state they left behind.
+func genC05History(g *Gen) {
+	// (a) a caller overwrites the listing AllPaths returned for a tiny full bitmap, then IndexToPath
+	//     is listed for every index of heights 0..7 (rows of the lookup table = listings of heights 0..3)
+	for hs := 0; hs <= 8; hs++ {
+		for _, h := range []int{0, 1, 2, 3, 4, 5, 6, 7} {
+			if hs > 3 && h != 4 && h != 7 {
+				continue
+			}
+			junk := []uint64{0, ^uint64(0), 0xdeadbeefcafe0000}[(hs+h)%3]
+			g.Stat("hist-scribble")
+			g.Do("bmtree.AllPaths/scribble", L(Int(hs), Int(h), U(junk)), fmt.Sprintf("scribble/%d/%d", hs, h))
+		}
+	}
+	g.Exhaust = append(g.Exhaust, "AllPaths listing of the full bitmap of height 0..3 (and 4..8) overwritten in place by the caller, then IndexToPath listed for every index of heights 0..7")
+
+	// (b) consecutive IndexToPath calls on one height whose indices differ by multiples of 2^k
+	//     (k = 20..30: truncated cache keys / tags), in both orders, and i j i repetitions
+	for h := 21; h <= 30; h++ {
+		N := int64(1)<<uint(h+1) - 1
+		bases := []int64{0, 1, 2, 3, 4, 5, 6, 7, int64(h), int64(g.R.U64() % (1 << 20)), int64(g.R.U64() % (1 << 20))}
+		for k := 20; k <= h; k++ {
+			if h >= 27 && k != 27 && k != 26 && k != 28 && g.R.Intn(3) != 0 {
+				continue
+			}
+			if h < 27 && g.R.Intn(4) != 0 {
+				continue
+			}
+			for _, b := range bases {
+				var xs []string
+				var rev []string
+				for j := int64(0); b+j<<uint(k) < N && j < 16; j++ {
+					xs = append(xs, I(b+j<<uint(k)))
+					rev = append([]string{I(b + j<<uint(k))}, rev...)
+				}
+				if len(xs) < 2 {
+					continue
+				}
+				g.Stat("hist-session")
+				g.Do("bmtree.IndexToPath/session", L(Int(h), L(xs...)), fmt.Sprintf("session/%s/2^%d/%d", c05HB(h), k, len(xs)))
+				g.Do("bmtree.IndexToPath/session", L(Int(h), L(rev...)), fmt.Sprintf("session/%s/2^%d/rev%d", c05HB(h), k, len(xs)))
+			}
+		}
+	}
+	// i j i j on random pairs of every height > 4
+	for n := 0; n < g.N(200, 4000); n++ {
+		h := g.R.Range(5, 30)
+		N := uint64(1)<<uint(h+1) - 1
+		i, j := int64(g.R.U64()%N), int64(g.R.U64()%N)
+		if g.R.Bool() { // same low byte of the key
+			j = (j &^ 7) | (i & 7)
+			if uint64(j) >= N {
+				j = i
+			}
+		}
+		g.Stat("hist-session")
+		g.Do("bmtree.IndexToPath/session", L(Int(h), L(I(i), I(j), I(i), I(j))), "session/"+c05HB(h)+"/ijij")
+	}
+
+	// (c) PathToIndexLoose / PathToIndex on partial, leaf-only and full masks, then IndexToPath of the
+	//     same height at the positions just returned and their neighbours
+	then := func(T int32, nodes []string, bucket string) {
+		g.Stat(bucket)
+		h := int(c03Height(T))
+		g.Do("bmtree.PathToIndex/then-IndexToPath", L(I32(T), L(nodes...)), fmt.Sprintf("then/%s/%s", c03Kind(T), c05HB(h)))
+	}
+	for T := int32(1); T < 1<<7; T++ {
+		h := int(c03Height(T))
+		var nodes []string
+		for l := 0; l <= h; l++ {
+			for v := uint64(0); v < 1<<uint(l); v++ {
+				nodes = append(nodes, c10Node(v, l))
+			}
+		}
+		then(T, nodes, "hist-then-exh")
+	}
+	g.Exhaust = append(g.Exhaust, "every level mask T in [1,2^7) x every node: PathToIndexLoose/PathToIndex(T, node), then IndexToPath(Height T, pos-1 | pos | pos+1)")
+	for n := 0; n < g.N(300, 6000); n++ {
+		h := g.R.Range(7, 30)
+		if g.R.Intn(6) == 0 {
+			h = g.R.Range(5, 6)
+		}
+		top := uint32(1) << uint(h)
+		low := top - 1
+		var T uint32
+		switch g.R.Intn(7) {
+		case 0:
+			T = top | low
+		case 1:
+			T = top
+		case 2:
+			T = top | uint32(g.R.U64()&g.R.U64()&g.R.U64())&low
+		case 3:
+			T = (top | low) &^ (1 << uint(g.R.Intn(h)))
+		case 4:
+			T = top | 1<<uint(g.R.Intn(h))
+		case 5:
+			T = top | 1 // leaf level and root
+		default:
+			T = top | uint32(g.R.U64())&low
+		}
+		var nodes []string
+		for j := g.R.Range(4, 12); j > 0; j-- {
+			l := g.R.Range(0, h)
+			switch g.R.Intn(5) {
+			case 0:
+				l = h
+			case 1:
+				l = g.R.Pick(0, 1, 2, h-1)
+			}
+			v := g.R.U64() & (1<<uint(l) - 1)
+			switch g.R.Intn(6) {
+			case 0:
+				v = 0
+			case 1:
+				v = 1<<uint(l) - 1
+			case 2:
+				v &= 7 // near the left edge: small positions
+			}
+			nodes = append(nodes, c10Node(v, l))
+		}
+		then(int32(T), nodes, "hist-then-rand")
+	}
 }
